@@ -1,7 +1,7 @@
 //! C08 - strings and blocks are transparent containers, also across reads.
 use simcore::exec::{Out, Sink};
 use simcore::rng::Rng;
-use simcore::spec::{Family, Model, IFACES};
+use simcore::spec::{Family, IFACES};
 use simcore::world::{Arg, Ev};
 
 use super::common::pick_iface;
@@ -62,7 +62,7 @@ impl Prop for C08T {
     fn generate(&self, seed: u64, thorough: bool) -> Scenario {
         let mut rng = Rng::new(seed);
         let (iface, cap) = pick_iface(&mut rng, &[Family::Tree]);
-        let m = Model::of(iface);
+        let m = simcore::spec::model(iface);
         let o = MsgOpts {
             max_units: rng.range(1, 4),
             unit: UnitOpts { payloads: Payloads::SpecialNl, allow_fail: false, allow_common: true },
